@@ -65,6 +65,7 @@ type progState struct {
 	BuildErr      string
 	DirLeft       int
 	AstDiff       string
+	Hygiene       string
 	Deterministic bool
 	SourceMapSame string
 	Deps          string // GD line payload (flow programs whose generated file parses)
@@ -346,8 +347,8 @@ func writeOutput(c *config, states []*progState, elapsed time.Duration) error {
 			if p.ModSub {
 				mc = fmt.Sprint(b2i(st.ModCompiles))
 			}
-			emit("G %d parses=%d typechecks=%d directives_left=%d astdiff=%s deterministic=%d sourcemap_same=%s modifier_compiles=%s",
-				p.PID, b2i(st.Parses), b2i(st.Typechecks), st.DirLeft, st.AstDiff, b2i(st.Deterministic), st.SourceMapSame, mc)
+			emit("G %d parses=%d typechecks=%d directives_left=%d astdiff=%s deterministic=%d sourcemap_same=%s modifier_compiles=%s hygiene=%s",
+				p.PID, b2i(st.Parses), b2i(st.Typechecks), st.DirLeft, st.AstDiff, b2i(st.Deterministic), st.SourceMapSame, mc, orNA(st.Hygiene))
 			if p.Kind == "flow" && st.Parses {
 				emit("GD %d %s", p.PID, st.Deps)
 			}
@@ -611,6 +612,9 @@ func checkStatic(st *progState) []progoracle.Mismatch {
 	if st.AstDiff != "ok" {
 		add("astdiff %s", st.AstDiff)
 	}
+	if st.Hygiene != "" && st.Hygiene != "ok" {
+		add("hygiene %s", st.Hygiene)
+	}
 	if !st.Deterministic {
 		add("generated file differs between runs")
 	}
@@ -642,4 +646,11 @@ func isFlowType(id int) bool {
 		}
 	}
 	return false
+}
+
+func orNA(s string) string {
+	if s == "" {
+		return "na"
+	}
+	return s
 }
